@@ -132,10 +132,14 @@ the three assumptions. -/
     `Props/C03.close_wait_and_idle_constants`) -/
 def idleTimeoutMs : Nat := 60000
 
+/-- the bounded wait of `closeWithError`: 1000 iterations of `time.Sleep(time.Millisecond)` (tied to
+    the source by `Props/C03.close_wait_and_idle_constants`) -/
+def closeWaitMs : Nat := 1000
+
 inductive Ev where
   | arq (e : Arq.Ev)
   | closeCall
-  | closeSend          -- a close request for the session left the writer's endpoint
+  | closeSend (ms : Nat)  -- a close request for the session left the writer's endpoint, `ms` after `Close()` was called
   | closeRet           -- Close() returned
   | closeDeliver       -- a close request / response for the session was handed to the reader's endpoint
   | localClose (idleMs : Nat)  -- the reader's session was closed with no close request delivered, after
@@ -176,16 +180,17 @@ def accept (c : Acc) : Ev → Option Acc
       | none => none
       | some a' => some { c with s := { c.s with a := a' } }
   | .closeCall => if c.s.closeReq then none else some { c with s := { c.s with closeReq := true } }
-  | .closeSend =>
+  | .closeSend ms =>
       if !c.s.closeReq then none
       else if c.s.wClosed then some { c with s := { c.s with netClose := c.s.netClose + 1 } }
       else if c.s.a.qLo = c.s.a.segs.length then
         some { c with s := { c.s with closeSent := true, netClose := c.s.netClose + 1 } }
+      else if ms < closeWaitMs then none   -- written out directly before the bounded wait can have expired
       else some { c with s := { c.s with closeSent := true, netClose := c.s.netClose + 1 }, patient := false }
   | .closeRet =>
-      if !c.s.closeReq then none
-      else if c.s.closeSent then some { c with s := { c.s with wClosed := true } }
-      else some { c with s := { c.s with wClosed := true }, patient := false }
+      -- `Close()` returns only after its close request has left (queued or forced); the model's
+      -- `abandon` (output failing) has no counterpart on the simulated network
+      if c.s.closeReq && c.s.closeSent then some { c with s := { c.s with wClosed := true } } else none
   | .closeDeliver =>
       if c.s.closeSent || c.s.wClosed then
         some { c with s := { c.s with rClosed := true }, ordered := c.ordered && allHanded c.s }
